@@ -142,6 +142,7 @@ type FnVC struct {
 	curLoopState *loopState
 	refHeaps map[string]bool
 	ghostSeq map[string]bool // ghost variables of kind "seq" (SMT arrays)
+	fnCases  []*Term
 	ancestors map[*ssa.BasicBlock]map[*ssa.BasicBlock]bool
 	pkg      *types.Package
 }
